@@ -222,7 +222,7 @@ class Valve(Device):
             self.coil = self.target
         else:
             self.error = True
-            self.coil = self.target = False
+            self.coil = self.target = self.safeState
 
     def reset(self):
         self.error = False
